@@ -47,7 +47,7 @@ Context (Hsort : Gen.Facts.error_sort_when_muted = true).
 Context (Hwf : Forall wf_pkt pkts).
 Context (Hn : N.of_nat (length pkts) < U32_MAX).
 Context (Hpay : pay_all pkts < U32_MAX).
-Context (Hlay : forall p, In p pkts -> layout_rp (hdr p) (p_payload p)).
+Context (Hlay : sc_skip (rc_scan c) = true \/ forall p, In p pkts -> layout_rp (hdr p) (p_payload p)).
 Context (Hknown : forall p r, pkts = p :: r -> known_sysid (r_system_id (hdr p)) = true).
 
 Let input := serialize pkts.
@@ -58,7 +58,7 @@ Let vc := rc_check c.
 Lemma stream_owned id' m : In (CS_error m) (vstream_of (run_validator vc (sel vc id' cdps))) -> in_unitb (sel vc id' cdps) (m_off m) = true.
 Proof.
   intros H. destruct whole_streams with (c := c) (pkts := pkts) as (o & tl & _ & _ & Hk & _); try assumption.
-  destruct (validator_err_owner vc (rc_scan c) pkts 0 o Hwf (whole_size pkts Hn Hpay Hknown) Hlay Hk id' m H) as (q & Q1 & Q2 & Q3).
+  destruct (validator_err_owner vc (rc_scan c) pkts 0 o Hwf (whole_size pkts Hn Hpay) Hlay Hk id' m H) as (q & Q1 & Q2 & Q3).
   apply in_unitb_true. exists q. split; [|apply start_inside, Q3]. unfold sel. apply filter_In. split; [exact Q1|apply N.eqb_eq, Q2].
 Qed.
 
